@@ -8,7 +8,7 @@ import os, shutil
 from ..common import RUNDIR
 
 THEOREMS = ['reachable_inv', 'store_read_back', 'read_back_forever', 'by_id_read_back', 'offsets_distinct', 'new_offset_fresh', 'reopen_reads',
-            'delineate_ignores_what_follows', 'delineate_length_any_total', 'map_store', 'map_reopen', 'map_chunks_from_source']
+            'delineate_ignores_what_follows', 'delineate_length_any_total', 'map_store', 'map_reopen', 'map_chunks_from_source', 'spec_log_grows', 'spec_store_logged']
 
 
 def far_ends(c, runner):
